@@ -152,6 +152,10 @@ struct Obs {
 
 fn observe(sim: &mut Sim) -> Obs {
     let mut o = Obs::default();
+    // let pending commands (e.g. the CompactLocals of a rejected / type-only line) reach the worker
+    for _ in 0..3 {
+        sim.fair_round();
+    }
     let vars = sim.repl.as_ref().unwrap().get_variables();
     o.order = vars.iter().map(|(n, _)| n.clone()).collect();
     for (name, _) in &vars {
@@ -383,6 +387,12 @@ fn gen_step(r: &mut Rng, g: &mut GenState) -> Step {
             g.feats.push("import");
             Step::Ok(s)
         }
+        15 if r.chance(1, 2) => {
+            // a test on the flowing previous result
+            g.last_is_int = true;
+            g.feats.push("previous-result-test");
+            Step::Ok("{ | =[] => 111 | 222 }".to_string())
+        }
         15 => {
             g.feats.push("rejected-parse");
             Step::BadParse(r.pick(&["x = = 3", "[1, 2", "a1 = )", "#'int { ", "5 =>"]).to_string())
@@ -409,6 +419,15 @@ const MODULE_M: &str = "m_a = 7,\nm_f = #'int { [~, m_a] __integer_multiply__ },
 
 fn violation(ev: &mut Ev, kind: &str, what: String, replay: serde_json::Value, found: bool) {
     ev.violation(&format!("repl kind={kind}"), &what, replay, found);
+    if kind.starts_with("previous-result-type-lost") {
+        DIVERGED.with(|d| d.set(true));
+    }
+}
+
+thread_local! {
+    /// the current session has diverged from its one-program form through the known finding F-C11-1:
+    /// later lines compute with a different previous result, comparing them further is meaningless
+    static DIVERGED: std::cell::Cell<bool> = const { std::cell::Cell::new(false) };
 }
 
 fn run_session(ev: &mut Ev, model: &mut Model, si: u64, seed: u64) {
@@ -446,6 +465,12 @@ fn run_session(ev: &mut Ev, model: &mut Model, si: u64, seed: u64) {
         i += 1;
     }
 
+    run_lines(ev, model, si, lines, &mut r);
+}
+
+/// Run a fixed list of lines as one session (generated or from corpus/C11).
+fn run_lines(ev: &mut Ev, model: &mut Model, si: u64, lines: Vec<Step>, r: &mut Rng) {
+    DIVERGED.with(|d| d.set(false));
     let mut modules = HashMap::new();
     modules.insert(vec!["m".to_string()], MODULE_M.to_string());
     let workers = 1 + r.usize(2);
@@ -456,6 +481,9 @@ fn run_session(ev: &mut Ev, model: &mut Model, si: u64, seed: u64) {
     let nil_tok = tok("t(_;)");
     let _ = model.ask(&format!("(reset {nil_tok})"));
     let mut accepted: Vec<String> = vec![]; // accepted step texts so far (for the one-program oracle)
+    // a type-definition-only line was accepted since the last line that produced a value (known finding:
+    // such a line overwrites the REPL's type of the previous result with nil)
+    let mut alias_since_value = false;
     let mut prev = observe(&mut sim);
     let mut transcript: Vec<serde_json::Value> = vec![];
     let replay = |lines: &Vec<Step>, transcript: &Vec<serde_json::Value>| json!({"lines": lines.iter().map(|l| format!("{l:?}")).collect::<Vec<_>>(), "workers": workers, "random_schedule": random_schedule, "transcript": transcript});
@@ -464,7 +492,7 @@ fn run_session(ev: &mut Ev, model: &mut Model, si: u64, seed: u64) {
         let src = match line {
             Step::Ok(s) | Step::Alias(s) | Step::BadParse(s) | Step::BadCompile(s) => s.clone(),
         };
-        let res = submit_line(&mut sim, &src, if random_schedule { Some(&mut r) } else { None });
+        let res = submit_line(&mut sim, &src, if random_schedule { Some(&mut *r) } else { None });
         let obs = observe(&mut sim);
         transcript.push(json!({"line": src, "result": format!("{res:?}"), "order": obs.order, "index": obs.index, "values": obs.value, "locals": obs.locals}));
         ev.hit(&format!(
@@ -493,6 +521,16 @@ fn run_session(ev: &mut Ev, model: &mut Model, si: u64, seed: u64) {
                     if std::env::var("VERIF_DEBUG").is_ok() {
                         eprintln!("unexpected rejection: `{src}` → {res:?}");
                     }
+                    // rejected in the session — is it also rejected as the next step of ONE program?
+                    let mut with = accepted.clone();
+                    with.push(src.clone());
+                    let one = eval_one(&join_program(&with), &modules);
+                    if let LineResult::Value(v1) = &one {
+                        violation(ev, &qualify("line-rejected-only-in-session", alias_since_value, &src),
+                            format!("session {si} line {li} `{src}` is rejected in the session ({res:?}) but as the next step of one program it evaluates to {v1}"),
+                            replay(&lines, &transcript), true);
+                    }
+                    ev.hit("checked:unexpected-rejection-vs-one-program");
                 }
                 // ---- rejected line: observationally a no-op ----
                 let model_ans = model.ask(if matches!(res, LineResult::ParseError) { "(line parse-error)" } else { "(line compile-error)" });
@@ -520,11 +558,14 @@ fn run_session(ev: &mut Ev, model: &mut Model, si: u64, seed: u64) {
                 }
                 compare_with_model(ev, si, li, &src, &model_ans, &obs, &lines, &transcript, &replay);
                 accepted.push(src.clone());
+                alias_since_value = true;
             }
             (_, LineResult::Value(v)) => {
                 if !matches!(line, Step::Ok(_)) {
                     ev.hit("unexpected:rejected-line-accepted");
                 }
+                let after_alias = alias_since_value;
+                alias_since_value = false;
                 accepted.push(src.clone());
                 // ---- model ----
                 let n_before = prev.order.len(); // compacted length = number of bindings
@@ -542,7 +583,7 @@ fn run_session(ev: &mut Ev, model: &mut Model, si: u64, seed: u64) {
                 let one = eval_one(&joined, &modules);
                 if one != LineResult::Value(v.clone()) {
                     let nil_involved = matches!(&one, LineResult::Value(x) if x == "t(_;)");
-                    violation(ev, if nil_involved { "line-value-differs-nil" } else { "line-value-differs" },
+                    violation(ev, &qualify(if nil_involved { "line-value-differs-nil" } else { "line-value-differs" }, after_alias, &src),
                         format!("session {si} line {li} `{src}`: REPL gives {v} but the lines as one program give {one:?}"),
                         replay(&lines, &transcript), true);
                 }
@@ -554,7 +595,7 @@ fn run_session(ev: &mut Ev, model: &mut Model, si: u64, seed: u64) {
                         obs.order.iter().map(|n| format!("_={}", obs.value.get(n).cloned().unwrap_or_default())).collect::<Vec<_>>().join(",")
                     );
                     if all != LineResult::Value(expect.clone()) {
-                        violation(ev, "variable-values-differ",
+                        violation(ev, &qualify("variable-values-differ", after_alias, &src),
                             format!("session {si} line {li} `{src}`: REPL variables {:?} but one program gives {all:?}", obs.value),
                             replay(&lines, &transcript), true);
                     }
@@ -572,16 +613,39 @@ fn run_session(ev: &mut Ev, model: &mut Model, si: u64, seed: u64) {
                 }
             }
             (_, other) => {
-                // runtime error / hang: the persistent process is gone (`ProcessFailed`); end the session
+                // runtime error / hang: the persistent process is gone (`ProcessFailed`); end the session —
+                // after asking the oracle whether the one program fails too
                 ev.hit(&format!("session-ended:{}", format!("{other:?}").chars().take(24).collect::<String>()));
+                let mut with = accepted.clone();
+                with.push(src.clone());
+                let one = eval_one(&join_program(&with), &modules);
+                if let LineResult::Value(v1) = &one {
+                    violation(ev, &qualify("line-fails-only-in-session", alias_since_value, &src),
+                        format!("session {si} line {li} `{src}` ends with {other:?} in the session but as the next step of one program it evaluates to {v1}"),
+                        replay(&lines, &transcript), true);
+                }
                 ev.case(&(si, "aborted"), false);
                 return;
             }
         }
         prev = obs;
+        if DIVERGED.with(|d| d.replace(false)) {
+            ev.hit("session-ended:diverged-by-known-finding");
+            ev.case(&(si, "diverged"), true);
+            return;
+        }
     }
     ev.case(&lines.iter().map(|l| format!("{l:?}")).collect::<Vec<_>>(), accepted.len() >= 2);
     ev.sample_sparse(si, 41, || json!({"session": si, "transcript": transcript}));
+}
+
+/// Signature of a session/one-program difference. When a type-definition-only line sits between the
+/// last value-producing line and a line that uses the flowing previous result, the difference is the
+/// known finding F-C11-1 (notes/C11.md); anything else keeps the plain kind.
+fn qualify(kind: &str, alias_since_value: bool, src: &str) -> String {
+    let first_step = src.split(',').next().unwrap_or("");
+    let uses_previous = src.trim_start().starts_with('{') || first_step.contains('~');
+    if alias_since_value && uses_previous { format!("previous-result-type-lost-after-type-only-line:{kind}") } else { kind.to_string() }
 }
 
 fn join_program(steps: &[String]) -> String {
@@ -674,6 +738,22 @@ fn main() {
         std::process::exit(0);
     }
 
+    // regression corpus first: one session per file, one line per text line
+    if let Ok(rd) = std::fs::read_dir("/verif/corpus/C11") {
+        let mut files: Vec<_> = rd.filter_map(|e| e.ok()).map(|e| e.path()).collect();
+        files.sort();
+        for (fi, f) in files.iter().enumerate() {
+            let Ok(text) = std::fs::read_to_string(f) else { continue };
+            let lines: Vec<Step> = text
+                .lines()
+                .filter(|l| !l.trim().is_empty() && !l.starts_with("//"))
+                .map(|l| if l.starts_with('\'') { Step::Alias(l.to_string()) } else { Step::Ok(l.to_string()) })
+                .collect();
+            let mut r = Rng::for_case(opts.seed ^ 0xC0, fi as u64);
+            run_lines(&mut ev, &mut model, 1_000_000 + fi as u64, lines, &mut r);
+            ev.hit("corpus:session");
+        }
+    }
     let n = opts.tier.pick(4000u64, 120_000u64);
     for si in 0..n {
         run_session(&mut ev, &mut model, si, opts.seed ^ 0xC11);
